@@ -38,7 +38,7 @@ def plan(tier, seed, rng, scale):
                 for fl in range(4):
                     descs.append({'k': k, 'rc': rcmode, 'kind': kind, 'am': bool(fl & 1), 'rm': bool(fl & 2),
                                   'seed': rng.getrandbits(32)})
-    n = int((2500 if tier == 'quick' else 60000) * scale)
+    n = int((8000 if tier == 'quick' else 80000) * scale)
     for i in range(n):
         k = rng.choice(FORCED_K) if rng.random() < 0.6 else rng.choice(G.ALL_K)
         descs.append({'k': k, 'rc': rng.random() < 0.7, 'kind': rng.choice(KINDS + ['random', 'pattern']),
